@@ -180,6 +180,10 @@ func lineShort(a, b [3]float64, h, v int64, limit float64) bool {
 // ---------------------------------------------------------------------------------------------- object lists
 
 func tileIn(v w.Val) ([]*object.TileXYZ, func() bool, bool) {
+	if _, isNil := v.(w.Nil); isNil {
+		var in []*object.TileXYZ
+		return in, func() bool { return in == nil }, true
+	}
 	l, ok := asListVal(v)
 	if !ok {
 		return nil, nil, false
@@ -223,6 +227,10 @@ type itemF struct {
 }
 
 func itemsIn(v w.Val) ([]*object.QuadkeyAndVerticalID, func() bool, bool) {
+	if _, isNil := v.(w.Nil); isNil {
+		var in []*object.QuadkeyAndVerticalID
+		return in, func() bool { return in == nil }, true
+	}
 	l, ok := asListVal(v)
 	if !ok {
 		return nil, nil, false
@@ -663,7 +671,9 @@ func itemsCost(v w.Val, oh, ov int64) float64 {
 	return t
 }
 
-func tilesCheap(v w.Val, E, O, ov int64, expand bool) bool { return tilesCost(v, E, O, ov, expand) <= costLimit }
+func tilesCheap(v w.Val, E, O, ov int64, expand bool) bool {
+	return tilesCost(v, E, O, ov, expand) <= costLimit
+}
 
 func tilesCost(v w.Val, E, O, ov int64, expand bool) float64 {
 	l, ok := asListVal(v)
